@@ -262,3 +262,6 @@ def check(run, prog, tier):
             ok_all, why = False, "path %s leaves the alias branch without copying the aliased function's flags: the alias slot keeps NAME_INHERITED|NAME_ALIAS only (no static/private/protected/varargs bits)" % (p[:8],)
     run.ob("C07-f", "alias-flags", ok_all, "every alias slot gets the flags of the aliased function" if ok_all else why, ep.file, ep.blocks[alias_tests[0]].term.get("l") if ep.blocks[alias_tests[0]].term else ep.line, "epilog",
            what="epilog leaves alias slots without the aliased function's modifiers: call_other can reach a static function through a program that inherits colliding definitions")
+
+    import rules.C07g as c07g
+    c07g.check(run, prog, tier)
